@@ -65,6 +65,13 @@ package chained_bft
 //@   loop 1 invariant counted_vals: forall a string :: in(counted, a) ==> counted[a]
 //@   loop 1 invariant counted_def: forall a string :: in(counted, a) <==> (exists j int :: 0 <= j && j < $i && qcsAddr(signs[j]) == a && member(a, justifyValidators) && voteSigValid(cc, signs[j], id))
 
+// A vote counts only if its (first) signature entry names a member of the validator set and
+// carries that member's valid signature over the voted proposal id.
+//@ func DefaultSaftyRules.CheckVote
+//@   property C14
+//@   let signs = qc.GetSignsInfo()
+//@   ensures vote_needs_a_valid_member_signature: result == nil ==> len(signs) > 0 && member(qcsAddr(signs[0]), validators) && voteSigValid(s.Crypto.CryptoClient, signs[0], qc.GetProposalId())
+
 // ======================= C15: pending-proposal tree =======================
 //@ macro idOf(n) = n.In.GetProposalId()
 //@ macro parentIdOf(n) = n.In.GetParentProposalId()
